@@ -15,7 +15,7 @@ mutual
     | .str => True
     | .bool => True
     | .seq t => Simple t
-    | .set _ => False
+    | .set _ _ => False
     | .map t => Simple t
     | .tuple ts => SimpleList ts
     | .pair a b => Simple a ∧ Simple b
@@ -202,7 +202,7 @@ mutual
           simp only [Except.ok.injEq] at h
           subst h; simp [conv, hc]
         · rw [if_neg hc] at h; simp at h
-    | .set _, hs => absurd hs (by simp [Simple])
+    | .set _ _, hs => absurd hs (by simp [Simple])
     | .variant _, hs => absurd hs (by simp [Simple])
     | .struct _, hs => absurd hs (by simp [Simple])
   theorem conv_idem_all : ∀ (ts : List Ty), SimpleList ts → IdemAll ts
